@@ -677,3 +677,62 @@ pub fn main(mut chk: Check) -> ! {
     chk.run("loopback", t.pick(4_000, 30_000), wire_strategy(), wire_oracle);
     chk.finish()
 }
+
+// ------------------------------------------------------------------------------------------
+// libFuzzer entry: bytes -> a case of the same class (thorough tier, harness/fuzz/fuzz_targets/fz_c14.rs)
+// ------------------------------------------------------------------------------------------
+
+pub fn case_from_bytes(data: &[u8]) -> Case {
+    let mut i = 0usize;
+    let mut b = || {
+        let v = data.get(i).copied().unwrap_or(0);
+        i += 1;
+        v
+    };
+    // limits around small numbers and a few round ones; totals around the limit
+    let limit: u32 = match b() % 8 {
+        0 => 0,
+        1 => 1,
+        2 => 2,
+        3 => 7,
+        4 => 64,
+        5 => 1000,
+        6 => 8192,
+        _ => u16::from_le_bytes([b(), b()]) as u32 % 5000,
+    };
+    let total: u32 = match b() % 8 {
+        0 => 0,
+        1 => limit.saturating_sub(1),
+        2 => limit,
+        3 => limit + 1,
+        4 => limit * 2,
+        5 => limit * 3 + 5,
+        _ => u16::from_le_bytes([b(), b()]) as u32 % 12_000,
+    };
+    let n_cuts = (b() % 12) as usize;
+    let cuts: Vec<u16> = (0..n_cuts).map(|_| u16::from_le_bytes([b(), b()])).collect();
+    let n_empty = (b() % 4) as usize;
+    let empties: Vec<u8> = (0..n_empty).map(|_| b()).collect();
+    let flags = b();
+    let cl = match b() % 9 {
+        0 | 1 => Cl::Absent,
+        2 => Cl::Truthful,
+        3 => Cl::Smaller(u16::from_le_bytes([b(), b()])),
+        4 => Cl::LargerWithinLimit(u16::from_le_bytes([b(), b()])),
+        5 => Cl::LargerAboveLimit(u16::from_le_bytes([b(), b()])),
+        6 => Cl::Huge,
+        _ => Cl::Garbage(b()),
+    };
+    Case {
+        limit,
+        total,
+        cuts,
+        empties,
+        trailers: flags & 1 == 1,
+        cl,
+        extractor: (flags >> 1) % 3,
+        stream_error_after: if flags & 0x10 != 0 { Some(b() % 14) } else { None },
+        pending_before: u16::from_le_bytes([b(), b()]),
+        te_header: flags & 0x20 != 0,
+    }
+}
